@@ -565,6 +565,28 @@ def promote_dtype(da_, db_):
     return ExtV("numpy." + hi)
 
 
+def _ufunc_broadcast_shape(args):
+    """Shape of an elementwise result: the operands' shapes broadcast against each other (right-aligned; 1 stretches).  Falls
+    back to the first known shape when two symbolic extents cannot be compared."""
+    shapes = [tuple(a.shape) for a in args if isinstance(a, Num) and a.shape]
+    if not shapes:
+        return None
+    nd = max(len(s_) for s_ in shapes)
+    out = []
+    for k in range(1, nd + 1):
+        dims = [sp.sympify(s_[-k]) for s_ in shapes if len(s_) >= k]
+        d = dims[0]
+        for e in dims[1:]:
+            if d == 1:
+                d = e
+            elif e == 1 or sp.simplify(d - e) == 0:
+                continue
+            else:
+                return shapes[0]       # not comparable (or a genuine mismatch NumPy would refuse): keep the first operand's shape
+        out.append(d)
+    return tuple(reversed(out))
+
+
 BOOL_UFUNCS = {"less", "less_equal", "greater", "greater_equal", "equal", "not_equal", "logical_and", "logical_or", "logical_not", "logical_xor",
                "isfinite", "isnan", "isinf", "signbit", "isnat"}
 
@@ -3644,7 +3666,7 @@ def call_ext(ev, fn: ExtV, args, kwargs, fr, node):
                 exprs = [a.expr if isinstance(a, Num) else sp.Symbol("arg_" + type(a).__name__) for a in args]
                 res.append(Num(sp.Function(f"Ufunc_{name}_{k}")(*exprs), tag="data",
                                kind="quantity" if any(isinstance(a, Num) and a.kind == "quantity" and a.tag != "unit" for a in args) else "array",
-                               shape=next((a.shape for a in args if isinstance(a, Num) and a.shape), None),
+                               shape=_ufunc_broadcast_shape(args),
                                dtype=ufunc_result_dtype(name, args, kwargs),
                                backend=next((a.backend for a in args if isinstance(a, Num) and a.backend), None)))
         return res[0] if int(nout) == 1 else TupleV(res)
